@@ -338,7 +338,7 @@ def run_instance(inst, tier='quick', seed=0):
             # budgets: the quick tier only runs instances with an estimated <= QUICK_PATH_BUDGET paths; a run that needs far
             # more than its estimate (e.g. a clamp that no longer clamps makes the case split endless) is cut short
             if tier == 'quick':
-                ex = explore(run, max_paths=max(400, 4*est), time_cap_s=30, fanout_cap=40)
+                ex = explore(run, max_paths=max(400, 4*est), time_cap_s=90, fanout_cap=40)
             else:
                 ex = explore(run, max_paths=20000, time_cap_s=INSTANCE_CAP_S/2, fanout_cap=200)
         finally:
